@@ -204,8 +204,9 @@ def run(ctx) -> None:
     # stages decided by other properties' rules, shared here because a violation of any of them is a dropped / duplicated /
     # reordered event of this pipeline: the grouping places every record once, the hand-over puts every element once (C08), the
     # event queue skips nothing but a pending duplicate (C16)
-    from .c16 import skip_decision
+    from .c16 import queue_bookkeeping, skip_decision
 
+    queue_bookkeeping(ctx, RO, RO, RO)
     skip_decision(ctx, RO)
     er = P.find_method("EventEmitter", "run")
     whiles = [n for n in ast.walk(er.node) if isinstance(n, ast.While)]
